@@ -39,6 +39,7 @@ func errorPoints(calls []TraceCall) []Inject {
 func runErrorInjection(prop string, w *World, pre *Snapshot, target Op, only *Inject) crashOutcome {
 	var oc crashOutcome
 	oc.kind = target.Kind + "/" + fieldSig(target)
+	w.writeFiles(target.Files) // the model looks at the files a result names
 	if w.Predict(pre, target).Decision == MustReject {
 		oc.skipped = "model rejects the command"
 		return oc
